@@ -291,6 +291,13 @@ def path(c, job):
 
         def pick(i):
             """(re-)select on the chooser before a start(); the dashboard string, when it names a mode, wins."""
+            # (only where the string named a mode so far: otherwise nothing can have been remembered)
+            dchg = c.choose(f"dashboard{i}", 2) if env.sd.get("Auto Selector") in keys else 0  # keep / changed
+            if dchg == 1:
+                if i % 2:
+                    env.sd.pop("Auto Selector", None)
+                else:
+                    env.sd["Auto Selector"] = "no such mode"
             ck2 = choose_keys[c.choose(f"chooser{i}", len(choose_keys))]
             s.chooser.selected = None if ck2 == "<default>" else ck2
             key = s.chooser.default if ck2 == "<default>" else ck2
@@ -396,7 +403,7 @@ class C14(Spec):
                     mkjob(["m1", "_m3"], fixed={"A.ctorfail": False, "A.disabled": False, "m1.importfail": False, "B.named": False, "B.disabled": False,
                                                 "B.default": False, "B.ctorfail": False, "B.dupname": False})]
         return [mkjob(["m1", "m2"]), mkjob(["m1", "m2", "_m3"], fixed={"A.named": True, "A.disabled": False, "A.ctorfail": False, "D.disabled": False}),
-                mkjob(["m1", "m2"], lifecycle="calls", K=5, fixed=HEALTHY), mkjob(["m1", "m2"], lifecycle="calls", K=3, fixed={k: v for k, v in HEALTHY.items() if not k.startswith("B.")}),
+                mkjob(["m1", "m2"], lifecycle="calls", K=4, fixed=HEALTHY), mkjob(["m1"], lifecycle="calls", K=5, fixed=HEALTHY), mkjob(["m1", "m2"], lifecycle="calls", K=3, fixed={k: v for k, v in HEALTHY.items() if not k.startswith("B.")}),
                 mkjob(["m1", "m4", "m5"], fixed={"A.named": True, "A.disabled": False, "A.ctorfail": False, "B.named": True, "B4.named": True, "B5.named": True,
                                                  "B.ctorfail": False, "B4.ctorfail": False, "B5.ctorfail": False, "m1.importfail": False, "m4.importfail": False, "m5.importfail": False}),
                 mkjob(["m1", "m2"], lifecycle="run", N=4, fixed=HEALTHY), mkjob([], missing=True)]
